@@ -527,6 +527,40 @@ func c07Alterations() []c07Alteration {
 			m.Fct = append([]udm.FactModel{f}, m.Fct[1:]...)
 			return true
 		}},
+		// presence-only alterations: an absent optional field becomes present with its zero value
+		{"nbf-present-zero", func(m *udm.UCANModel, o *Prin) bool {
+			if m.Nbf != nil {
+				return false
+			}
+			z := 0
+			m.Nbf = &z
+			return true
+		}},
+		{"nnc-present-empty", func(m *udm.UCANModel, o *Prin) bool {
+			if m.Nnc != nil {
+				return false
+			}
+			e := ""
+			m.Nnc = &e
+			return true
+		}},
+		// alias encodings of the SAME principal: the multiformat bytes replaced by the UTF-8 text of the DID
+		{"iss-as-text", func(m *udm.UCANModel, o *Prin) bool {
+			d, err := did.Decode(m.Iss)
+			if err != nil {
+				return false
+			}
+			m.Iss = []byte(d.String())
+			return true
+		}},
+		{"aud-as-text", func(m *udm.UCANModel, o *Prin) bool {
+			d, err := did.Decode(m.Aud)
+			if err != nil {
+				return false
+			}
+			m.Aud = []byte(d.String())
+			return true
+		}},
 		{"version", func(m *udm.UCANModel, o *Prin) bool { m.V = "0.9.2"; return true }},
 		{"sig-flip", func(m *udm.UCANModel, o *Prin) bool {
 			s := append([]byte{}, m.S...)
@@ -721,6 +755,28 @@ func init() {
 					}
 					ma.Finish()
 					nd = nb.Build()
+				}
+				if i%7 == 5 && len(caps) == 0 {
+					// "/" as an ordinary map key, next to the reserved DAG-JSON shapes: with other keys (signable), alone with a
+					// non-string value (signable), alone with a string / {"bytes": string} (refused)
+					mapOfKV := func(kv ...any) datamodel.Node {
+						nb := basicnode.Prototype.Map.NewBuilder()
+						ma, _ := nb.BeginMap(int64(len(kv) / 2))
+						for j := 0; j+1 < len(kv); j += 2 {
+							ma.AssembleKey().AssignString(kv[j].(string))
+							ma.AssembleValue().AssignNode(kv[j+1].(datamodel.Node))
+						}
+						ma.Finish()
+						return nb.Build()
+					}
+					nd = []datamodel.Node{
+						mapOfKV("routes", mapOfKV("/", basicnode.NewString("index.html"), "/about", basicnode.NewString("about.html"))),
+						mapOfKV("/", basicnode.NewInt(int64(i))),
+						mapOfKV("x", mapOfKV("/", mapOfKV("bytes", basicnode.NewInt(7)))),
+						mapOfKV("/", mapOfKV("bytes", basicnode.NewString("AQID"), "more", basicnode.NewBool(true))),
+						mapOfKV("x", mapOfKV("/", basicnode.NewString("not-a-cid"))),
+						mapOfKV("/", mapOfKV("bytes", basicnode.NewString("AQID"))),
+					}[(i/7)%6]
 				}
 				caps = append(caps, ucan.NewCapability[ucan.CaveatBuilder](pick(r, abilities), pick(r, []string{iss.DID.String(), "ucan:*", "https://example.com/ü"}), nodeNb{nd}))
 			}
